@@ -5,8 +5,12 @@ impl-level spec : specs/WsSend.tla   -- write side of websocket.Conn (direct and
 deciding monitor: specs/WsOrderMon.tla via WsOrderMonTrace
 binding G       : paths of the WsSend state graph replayed on the real websocket.Conn under the
                   cooperative scheduler (harness/cmd/wsq; sync and go shimmed in nbhttp/websocket)
+impl-level spec : specs/WsDispatch.tla -- dispatch of open / message / close callbacks in the three dispatch
+                                          structures (job queue, inline reader, transferred with gate); TLC exhaustive,
+                                          and with a repair switched off it reproduces the repaired defect
 binding V       : real servers in every upgrade path x epoll mode x plain/TLS x direct/queued writes,
-                  raw WebSocket clients (harness/cmd/wse2e)
+                  raw WebSocket clients (harness/cmd/wse2e); the recorded callback events are also checked for
+                  conformance with WsDispatch.tla (WsDispatchTrace: unexplained event = drift, not a verdict)
 """
 import json
 
@@ -136,4 +140,6 @@ def run(res, scratch, *, tier, seed, replay):
     for s in scripts[:2]:
         res.sample({"script": s["id"], "steps": [x["t"] for x in s["steps"]]})
     if not replay:
-        ws_e2e.run(res, scratch, "C14", tier, seed)
+        ws_e2e.dispatch_model(res, scratch)
+        tp2 = ws_e2e.run(res, scratch, "C14", tier, seed)
+        ws_e2e.dispatch_conformance(res, scratch, tp2)
